@@ -255,3 +255,139 @@ def alldifferent(case):
     j = fresh_int("j")
     requires(And(j >= 0, j < w.n))
     check("operand-j-is-item-j", mk_bool(_z3.Select(A(ops), j.t) == w.item(j.t)))
+
+
+# ------------------------------------------------------------------------------------------------ conv2d, four_neighbors
+from pyvc.values import GhostVal as _GV
+
+AR = "cspuz/array.py"
+
+
+class _Window(_GV):
+    """the sub-array self[y0:y1, x0:x1] as returned under the indexing contract proved by C13: its items, row-major, are
+    the cells (y0 + k // (x1-x0), x0 + k % (x1-x0))"""
+    pv_pytype = "object"
+
+    def __init__(self, y0, y1, x0, x1):
+        self.y0, self.y1, self.x0, self.x1 = y0, y1, x0, x1
+
+
+@harness("C12", cases=[dict(op=o) for o in ("and", "or", "xor")])
+def conv2d_windows(case):
+    """conv2d(h, w, op): one AND / OR node per window position (y, x) with 0 <= y <= H-h, 0 <= x <= W-w, in row-major
+    order, over exactly the window self[y:y+h, x:x+w]; shape (max(0,H-h+1), max(0,W-w+1)); any other op -> ValueError"""
+    if CTX.mode != "sym":
+        return
+    H, W, h, w = sint("H"), sint("W"), sint("h"), sint("w")
+    requires(And(H >= 0, W >= 0, h >= 1, w >= 1))
+    Op = CLS(EX, "Op")
+    made = []
+
+    def getitem(it, a, k):
+        key = a[1]
+        if not (isinstance(key, tuple) and len(key) == 2 and all(isinstance(s_, slice) for s_ in key)):
+            raise OutOfSubset("conv2d indexes with something else than a pair of slices")
+        ys, xs = key
+        if ys.step is not None or xs.step is not None:
+            raise OutOfSubset("stepped window")
+        return _Window(ys.start, ys.stop, xs.start, xs.stop)
+
+    use_contract(AR + "::Array2D.__getitem__", getitem)
+    use_contract(AR + "::BoolArray2D.__getitem__", getitem)
+
+    def boolexpr_init(it, a, k):
+        made.append((a[1], a[2]))
+        return None
+
+    use_contract(EX + "::BoolExpr.__init__", boolexpr_init)
+    arr = OBJ(AR, "BoolArray2D", shape=(H, W), data=Opaque("cells"))
+    rh, rw = ite(H - h + 1 > 0, H - h + 1, 0), ite(W - w + 1 > 0, W - w + 1, 0)
+    mark = {}
+
+    def head(ns):
+        mark["n"] = len(made)
+        return None
+
+    def end(ns, token):
+        new = made[mark["n"]:]
+        check("one-node-per-window-position", len(new) == 1)
+        check("nodes-in-row-major-order", length(ns.r_data) - 1 == ns.y * rw + ns.x)
+        if len(new) == 1:
+            op, comp = new[0]
+            check("node-operator-is-the-requested-one", op is attr(Op, "AND" if case.op == "and" else "OR"))
+            ok = isinstance(comp, _Window)
+            check("node-is-over-a-window-of-the-array", ok)
+            if ok:
+                check("window-is-rows-y..y+h-and-columns-x..x+w", And(comp.y0 == ns.y, comp.y1 == ns.y + h, comp.x0 == ns.x, comp.x1 == ns.x + w))
+                check("window-lies-inside-the-array", And(comp.y0 >= 0, comp.y1 <= H, comp.x0 >= 0, comp.x1 <= W))
+
+    K = AR + "::BoolArray2D.conv2d"
+    loop_spec(K, 0, inv=lambda ns: [length(ns.r_data) == ns.y * rw, ns.y >= 0], modifies=["r_data"], types={"r_data": "list:ref", "x": "int", "component": "opaque"})
+    loop_spec(K, 1, inv=lambda ns: [length(ns.r_data) == ns.y * rw + ns.x, ns.y >= 0, ns.y < rh, ns.x >= 0], modifies=["r_data"],
+              types={"r_data": "list:ref", "component": "opaque"}, at_head=head, at_end=end)
+    res = {}
+
+    def arr_init(it, a, k):
+        res["data"], res["shape"] = a[1], a[2] if len(a) > 2 else k.get("shape")
+        return None
+
+    use_contract(AR + "::BoolArray2D.__init__", arr_init)
+    o = call(REAL(AR, "BoolArray2D.conv2d"), arr, h, w, case.op)
+    if case.op == "xor":
+        check("other-operators-rejected-with-ValueError", o.exc == "ValueError")
+        return
+    check("no-exception", not o.raised)
+    if o.raised:
+        return
+    check("result-shape", "shape" in res and isinstance(res["shape"], tuple) and And(res["shape"][0] == rh, res["shape"][1] == rw))
+    check("one-entry-per-window", "data" in res and length(res["data"]) == rh * rw)
+
+
+@harness("C12", cases=[dict(form=f) for f in ("two", "tuple", "bad-one-int", "bad-tuple-and-int")])
+def four_neighbors_values(case):
+    """_four_neighbors(array, y, x): the array's elements at the in-bounds members of (y-1,x), (y+1,x), (y,x-1), (y,x+1),
+    in that order; both call forms; malformed argument combinations -> TypeError"""
+    if CTX.mode != "sym":
+        return
+    H, W, y, x = sint("H"), sint("W"), sint("y"), sint("x")
+    requires(And(H >= 1, W >= 1, y >= 0, y < H, x >= 0, x < W))
+    got = []
+
+    def getitem(it, a, k):
+        key = a[1]
+        got.append(key)
+        return ("cell", key[0], key[1])
+
+    use_contract(AR + "::Array2D.__getitem__", getitem)
+    use_contract(AR + "::BoolArray2D.__getitem__", getitem)
+    arr = OBJ(AR, "BoolArray2D", shape=(H, W), data=Opaque("cells"))
+    f = REAL(AR, "_four_neighbors")
+    if case.form == "two":
+        o = call(f, arr, y, x)
+    elif case.form == "tuple":
+        o = call(f, arr, (y, x), None)
+    elif case.form == "bad-one-int":
+        o = call(f, arr, y, None)
+        check("one-integer-rejected-with-TypeError", o.exc == "TypeError")
+        return
+    else:
+        o = call(f, arr, (y, x), x)
+        check("tuple-plus-integer-rejected-with-TypeError", o.exc == "TypeError")
+        return
+    check("no-exception", not o.raised)
+    if o.raised:
+        return
+    want = []
+    if bool(y > 0):
+        want.append((y - 1, x))
+    if bool(y < H - 1):
+        want.append((y + 1, x))
+    if bool(x > 0):
+        want.append((y, x - 1))
+    if bool(x < W - 1):
+        want.append((y, x + 1))
+    items = interp().iterate(o.value)
+    check("one-element-per-in-bounds-neighbour", items is not None and len(items) == len(want))
+    if items is not None and len(items) == len(want):
+        for it_, (wy, wx) in zip(items, want):
+            check("element-of-that-neighbour-in-the-documented-order", isinstance(it_, tuple) and it_[0] == "cell" and And(it_[1] == wy, it_[2] == wx))
